@@ -398,6 +398,7 @@ func runC09(c *Ctx) {
 	runC09Rebuild(c, named)
 	runC09Config(c, named)
 	runC09Live(c, named)
+	runC09Init(c, named)
 }
 
 // traceBool: the value of a boolean abstract value on a finished trace.
@@ -529,6 +530,83 @@ func runC09Remove(c *Ctx, tn string) {
 	}
 	c.Check(len(pairBad) == 0 && n > 0, "C09-PAIR", where, "remove", firstPos, fmt.Sprintf("%d removing paths in %v: one list removal, one map delete each", n, names), uniqJoin(pairBad, 3))
 	c.Check(len(cbBad) == 0 && n > 0, "C09-CB", where, "callback", firstPos, "exactly once with the removed key and value when set", uniqJoin(cbBad, 3))
+	// who may invoke: the removal callback fires for evicted or deleted entries ONLY — a function that
+	// removes nothing (an overwrite in Store, a lookup, Len) must not call it
+	{
+		isHelper := map[*ssa.Function]bool{}
+		for _, h := range helpers {
+			isHelper[h] = true
+		}
+		cbField := func(v ssa.Value) (int, bool) { // v is the function value of a dynamic call: a load of a func-typed field of the cache
+			seen := map[ssa.Value]bool{}
+			var walk func(v ssa.Value) (int, bool)
+			walk = func(v ssa.Value) (int, bool) {
+				if v == nil || seen[v] {
+					return 0, false
+				}
+				seen[v] = true
+				switch x := v.(type) {
+				case *ssa.UnOp:
+					if fa, ok := x.X.(*ssa.FieldAddr); ok && x.Op == token.MUL {
+						if n := namedOf(fa.X.Type()); n != nil && n.Obj().Name() == tn {
+							return fa.Field, true
+						}
+					}
+				case *ssa.Phi:
+					for _, e := range x.Edges {
+						if i, ok := walk(e); ok {
+							return i, true
+						}
+					}
+				case *ssa.ChangeType:
+					return walk(x.X)
+				}
+				return 0, false
+			}
+			return walk(v)
+		}
+		inRemovers := map[int]bool{}
+		type site struct {
+			fn    *ssa.Function
+			pos   token.Pos
+			field int
+		}
+		var sites []site
+		for _, fn := range p.Funcs {
+			if fn.Pkg == nil || !strings.HasPrefix(fn.Pkg.Pkg.Path(), ModPath) {
+				continue
+			}
+			for _, b := range fn.Blocks {
+				for _, ins := range b.Instrs {
+					ci, ok := ins.(ssa.CallInstruction)
+					if !ok || ci.Common().IsInvoke() || staticCallee(ci.Common()) != nil {
+						continue
+					}
+					if _, isB := ci.Common().Value.(*ssa.Builtin); isB {
+						continue
+					}
+					if f, ok := cbField(ci.Common().Value); ok {
+						host := fn
+						for host.Parent() != nil {
+							host = host.Parent()
+						}
+						if isHelper[host] {
+							inRemovers[f] = true
+						}
+						sites = append(sites, site{host, ins.Pos(), f})
+					}
+				}
+			}
+		}
+		var bad []string
+		for _, s := range sites {
+			if inRemovers[s.field] && !isHelper[s.fn] {
+				bad = append(bad, fmt.Sprintf("%s: %s invokes the removal callback although it removes no entry: the callback fires for an entry that was neither evicted nor deleted", p.Pos(s.pos), fnName(s.fn)))
+			}
+		}
+		c.Sites += len(sites)
+		c.Check(len(bad) == 0 && len(inRemovers) > 0, "C09-CB", tn, "only-on-removal", firstPos, fmt.Sprintf("%d invocation sites of the removal callback, all inside the removing function(s)", len(sites)), uniqJoin(append(bad, map[bool]string{true: "", false: "no invocation of a callback field found in a removing function"}[len(inRemovers) > 0]), 3))
+	}
 	// the public Delete reaches the helper only on a hit; capacity field immutable
 	named, mu := cacheType(p)
 	_ = mu
